@@ -617,7 +617,21 @@ def gen_op(rng, root, src_gaps=None, kept=None):
     kind = rng.choice(['replace_expr', 'replace_expr', 'replace_stmt', 'remove', 'remove', 'insert', 'insert',
                        'append', 'put_slice', 'put_src', 'put_src', 'view', 'view', 'prepend', 'del_slice',
                        'put_src_none', 'put_src_none', 'line_comment', 'line_comment', 'line_comment', 'docstr',
-                       'par', 'unpar', 'unpar', 'virt', 'virt', 'kview_make', 'kview_act', 'kview_act'])
+                       'par', 'unpar', 'unpar', 'virt', 'virt', 'kview_make', 'kview_act', 'kview_act', 'fstr_replace', 'raw'])
+    if kind == 'fstr_replace':
+        c = [(p, a) for p, a in nodes if isinstance(a, (ast.Name, ast.BinOp, ast.UnaryOp, ast.Call, ast.Attribute))
+             and isinstance(getattr(a, 'ctx', ast.Load()), ast.Load) and any(n == 'values' for n, _ in p)
+             and any(isinstance(at_path(root.a, p[:k]), ast.FormattedValue) for k in range(len(p))) and p[-1][0] != 'func']
+        if not c:
+            return None
+        p, a = rng.choice(c)
+        return {'op': 'replace', 'path': list(map(list, p)), 'code': rng.choice(FSTR_CODES)}
+    if kind == 'raw':
+        c = header_exprs(root.a)
+        if not c:
+            return None
+        p = rng.choice(c)
+        return {'op': rng.choice(['raw_replace', 'reparse']), 'path': list(map(list, p)), 'code': rng.choice(RAW_CODES)}
     if kind in ('kview_make', 'kview_act'):
         if kept is None:
             return None
@@ -966,6 +980,13 @@ def apply_op(root, op, kept=None):
             else:
                 raise ValueError(how)
         return {}
+    if k == 'raw_replace':
+        f.replace(op['code'], raw=True)
+        return {}
+    if k == 'reparse':
+        loc = f.pars() if op.get('pars') else f.loc
+        root.put_src(op['code'], loc[0], loc[1], loc[2], loc[3], 'reparse')
+        return {}
     if k == 'line_comment':
         f.put_line_comment(op['text'], op['field'], op['full'])
         return {}
@@ -1201,6 +1222,95 @@ def check_kept(root, kept, okind):
                           f'(edited through itself: {acted}): len/items/start_and_stop {str(got)[:300]}; a fresh view on a '
                           f'fresh parse of the current source gives {str(want)[:300]}', None))
     return fails
+
+
+# f-strings (PEP 701 shapes) with multi-byte text before the fields: replacements of the operands inside the fields by
+# texts of another length must leave every node (JoinedStr, FormattedValue, format_spec Constants) where CPython puts it
+FSTR_SHAPES = [
+    "x = f'é{-a:>5}'",
+    "x = f'é{not a:^{w}}'",
+    "x = f'ñ{a + b!r:>{w}.{p}}'",
+    "x = f'日本{a=}'",
+    "x = f'é{a=:>5}'",
+    "x = f'é{a!s:{b}{c}}'",
+    "x = f'é{f\"ü{b:>{w}}\"}{c}'",
+    "x = f'''é\nü{a:>5}\n{b}ß{c:{w}}'''",
+    "x = f'é{(a):5}{b}'",
+    "x = f'{a:é>5}ü{b:>{w}}'",
+    "x = f'é{a:>5}' f'ü{b:<{w}}' 'plain'",
+    "print(f'é{x[i]:{w}d}', f'ü{y.z(k)!a:^9}')",
+    "x = f'{a}{b:>5}'",
+    "x = f'ascii {-a:>5}'",
+]
+FSTR_CODES = ['bbb', 'q', 'ñé', 'f(1)', 'u.v[0]']
+
+
+def fstr_product():
+    out = []
+    for src in FSTR_SHAPES:
+        tree = ast.parse(src)
+        nodes = enum_nodes(tree)
+        inside = []
+        for p, a in nodes:
+            if isinstance(a, (ast.Name, ast.BinOp, ast.UnaryOp, ast.Call, ast.Subscript, ast.Attribute)) and \
+                    isinstance(getattr(a, 'ctx', ast.Load()), ast.Load) and any(n == 'values' for n, _ in p) and p[-1][0] != 'func':
+                inside.append(p)
+        pre = [[list(map(list, p)), q] for p, _ in nodes for q in QNAMES]
+        for p in inside:
+            for code in FSTR_CODES:
+                out.append((src, [{'pre': pre, 'op': {'op': 'replace', 'path': list(map(list, p)), 'code': code}}]))
+    return out
+
+
+# raw (source-level) edits confined to the header of every kind of block statement
+RAW_SHAPES = [
+    'match cmd.kind:\n    case 1:\n        a\n    case [x, y] if g(x):\n        b\n    case _:\n        c\n',
+    'match (p, q):\n    case (1, z):\n        a\n    case _:\n        b\nafter\n',
+    'try:\n    a\nexcept E as e:\n    b\n',
+    'try:\n    a\nexcept (E, F):\n    b\nexcept G.H:\n    c\nelse:\n    d\nfinally:\n    e\n',
+    'try:\n    a\nexcept* E:\n    b\nfinally:\n    c\n',
+    'with open(f) as g, h() as (i, j):\n    a\n',
+    'async def w():\n    async with m(1) as n:\n        a\n    async for i in it(n):\n        b\n    else:\n        c\n',
+    'for i, j in rng(n):\n    a\nelse:\n    b\n',
+    'while x < lim:\n    a\nelse:\n    b\n',
+    'if a.b:\n    c\nelif d(e):\n    f\nelif g:\n    h\nelse:\n    i\n',
+    '@deco(1)\n@other\ndef f[T: int](a: int = one, *b, c=two) -> R:\n    """d"""\n    return a\n',
+    '@d.e\nclass C[T](Base, Mixin, metaclass=M):\n    """d"""\n    x = 1\n',
+    'class K:\n    def m(self, p=q):\n        if p:\n            return p\n        while p: pass\n',
+]
+RAW_CODES = ['zz', 'q.r(1)']
+_BLOCK_FIELDS = ('body', 'orelse', 'finalbody', 'handlers', 'cases')
+
+
+def header_exprs(tree):
+    """paths of expression nodes that sit in the header of a block statement / handler / match_case"""
+    out = []
+    for p, a in enum_nodes(tree):
+        if not isinstance(a, ast.expr) or isinstance(a, (ast.JoinedStr, ast.FormattedValue)):
+            continue
+        # nearest statement-like ancestor must be a block and the way down to `a` must not go through a block field
+        for k in range(len(p) - 1, -1, -1):
+            anc = at_path(tree, p[:k])
+            if isinstance(anc, (ast.stmt, ast.ExceptHandler, ast.match_case)):
+                if any(isinstance(getattr(anc, f, None), list) and getattr(anc, f) and
+                       isinstance(getattr(anc, f)[0], (ast.stmt, ast.ExceptHandler, ast.match_case)) for f in _BLOCK_FIELDS) \
+                        and p[k][0] not in _BLOCK_FIELDS:
+                    out.append(p)
+                break
+    return out
+
+
+def raw_product():
+    out = []
+    for src in RAW_SHAPES:
+        tree = ast.parse(src)
+        nodes = enum_nodes(tree)
+        pre = [[list(map(list, p)), q] for p, _ in nodes for q in ('loc', 'bloc', 'pars', 'links', 'nav', 'views', 'src')]
+        for p in header_exprs(tree):
+            for code in RAW_CODES:
+                out.append((src, [{'pre': pre, 'op': {'op': 'raw_replace', 'path': list(map(list, p)), 'code': code}}]))
+                out.append((src, [{'pre': pre, 'op': {'op': 'reparse', 'path': list(map(list, p)), 'code': code}}]))
+    return out
 
 
 KVIEW_FIELDS = [
